@@ -4,18 +4,19 @@ CONSTANTS
   TypeTab <- ScaledTypes
   GraphLo = 1 GraphHi = 2 MaxBits = 6
   GPrec = 3 ByteMax = 20 DecLimit = 9
-  PrintTypes = {"b", "y", "n", "q", "i", "u", "x", "t", "l", "f", "d", "e"}
+  PrintTypes = {"b", "y", "n", "q", "i", "u", "x", "t", "l", "f", "d"}
   IntFormats <- IntFormatsT
   FltFormats <- FltFormatsT
   Lefts = {0, 1, 2, 3, 4, 5, 6, 9, 12}
+  FltLefts = {0, 4, 7, 12}
   FmtAlphabet = {32, 43, 102, 101, 120, 48, 49, 50, 57, 46, 45}
   FmtLen = 4
   DestAlphabet = {32, 58, 48, 49, 50, 51, 45, 120, 43}
   DestLen = 4
   DestSeps = {0, 58}
   DestMax = {1, 2, 7}
-  RDsts = {"b", "y", "n", "x", "t"}
-  RBases = {0, 10, 16}
+  RDsts = {"b", "y", "x", "t"}
+  RBases = {0, 16}
   RAlphabet = {32, 45, 43, 48, 49, 57, 102, 120}
   RLen = 3
   VecTypes = {"c", "b", "y", "i", "u", "x", "f", "d", "e", "l"}
